@@ -1125,8 +1125,16 @@ fn run_p(rng: &mut Rng, cycles: usize, out: &mut Out) -> Result<bool, String> {
             out.line(format!("qcall {i} {now} {text}"));
             out.count(&format!("p_call_{}", gens[*i].kind.name()));
         }
-        let res = h.cycle();
         out.line("obs");
+        let res = match guard(|| h.cycle()) {
+            Some(res) => res,
+            None => {
+                // a panic inside the scan cycle: report it and stop the case (the runtime may be half-updated)
+                out.line("impl panic");
+                out.count("p_cycle_panic");
+                return Ok(true);
+            }
+        };
         if !res.errors.is_empty() {
             out.line(format!("impl error:{:?}", res.errors));
             out.count("p_cycle_error");
